@@ -52,6 +52,7 @@ OPTS = {
     'MAXIMUM': 'MaximumMinimumOptions',
     'LEAKY_RELU': 'LeakyReluOptions',
     'PAD': 'PadOptions',
+    'SVDF': 'SVDFOptions',
 }
 
 DT = {'f32': (TT.FLOAT32, np.float32), 'i32': (TT.INT32, np.int32)}
@@ -248,6 +249,8 @@ def build(spec, overrides=None, only_subgraph=None, with_signatures=True):
       ft.type = DT[t['dtype']][0]
       ft.quantization = S.QuantizationParametersT()
       ft.hasRank = True
+      if t['kind'] == 'var':   # state of a stateful op: no data, reset to zero
+        ft.isVariable = True
       share = t.get('share')
       if (t['kind'] == 'const' and share is not None and
           (tuple(share) in buffer_of)):
@@ -461,7 +464,7 @@ class _SG:
 
   def runtime_f32(self):
     return [i for i, t in enumerate(self.tensors)
-            if t['kind'] != 'const' and t['dtype'] == 'f32']
+            if t['kind'] not in ('const', 'var') and t['dtype'] == 'f32']
 
 
 def _pos(rng, lo_min=0.2):
@@ -482,6 +485,8 @@ def _applicable(g, x, cfg):
       ops.extend([o] * w)
   if r >= 2:
     add('FULLY_CONNECTED', 3)
+  if r == 2:
+    add('SVDF', 2)   # stateful; only when a check lists it explicitly
   if r == 4:
     add('CONV_2D', 2)
     add('DEPTHWISE_CONV_2D', 2)
@@ -546,6 +551,23 @@ def _apply(g, op, x, cfg):
     g.node(op, [x, w, bias], [y],
            {'fusedActivationFunction': act(), 'weightsFormat': 0,
             'keepNumDims': bool(keep), 'asymmetricQuantizeInputs': False})
+  elif op == 'SVDF':
+    # stateful: the last operand is a variable tensor the kernel shifts and
+    # rewrites on every invocation (reset_all_variables() zeroes it)
+    batch, f = shape
+    rank = d(st.integers(1, 2))
+    units = d(st.integers(1, 3))
+    mem = d(st.integers(2, 4))
+    wf = g.const_f([units * rank, f], f, op)
+    wt = g.const_f([units * rank, mem], mem, op)
+    bias = g.const_f([units], 1, op, role='b') if d(st.booleans()) else -1
+    g.tensors.append({'name': g._name('act', op) + '/state', 'shape': [batch, mem * units * rank],
+                      'dtype': 'f32', 'kind': 'var', 'rng': None})
+    state = len(g.tensors) - 1
+    y = g.new_act([batch, units], op)
+    g.node(op, [x, wf, wt, bias, state], [y],
+           {'rank': rank, 'fusedActivationFunction': d(st.sampled_from([0, 0, 1])),
+            'asymmetricQuantizeInputs': False})
   elif op in ('CONV_2D', 'DEPTHWISE_CONV_2D'):
     _, h, wd, c = shape
     same = d(st.booleans())
